@@ -570,3 +570,4 @@
 (define-fun uriParamPart ((n String)) String (str.substr n (+ (str.indexof n ";" 0) 1) (- (str.len n) (+ (str.indexof n ";" 0) 1))))
 (define-fun uriHostPort ((c String)) String (ite (>= (str.indexof c "@" 0) 0) (str.substr c (+ (str.indexof c "@" 0) 1) (- (str.len c) (+ (str.indexof c "@" 0) 1))) c))
 (define-fun uriUserInfo ((c String)) String (ite (>= (str.indexof c "@" 0) 0) (str.substr c 0 (str.indexof c "@" 0)) ""))
+;@ghost stampSeenHops (Seq Int)
